@@ -411,6 +411,19 @@ impl WorkerTree {
         }
 
         self.update_external_dependencies(&path);
+
+        // when a directory goes away, the files inside it that other work items
+        // depend on go away with it
+        let removed_dependencies: Vec<_> = self
+            .external_dependencies
+            .keys()
+            .filter(|dependency| *dependency != &path && dependency.starts_with(&path))
+            .cloned()
+            .collect();
+
+        for dependency in removed_dependencies {
+            self.update_external_dependencies(&dependency);
+        }
     }
 
     /// Checks if a source file is present in the worker tree.
